@@ -139,6 +139,13 @@ theorem ite_some_eq {β : Type} (c : Prop) [i1 : Decidable c] [i2 : Decidable c]
   subst this
   split <;> rfl
 
+/-- the same through nested `if`s (`elif` chains): branch by branch -/
+theorem ite_some_congr {β : Type} (c : Prop) [i1 : Decidable c] [i2 : Decidable c] {t e : Option β}
+    {t' e' : β} (ht : t = some t') (he : e = some e') :
+    (@ite _ c i1 t e) = some (@ite _ c i2 t' e') := by
+  subst ht he
+  exact @ite_some_eq β c i1 i2 t' e'
+
 theorem length_two {β : Type} {l : List β} (h : l.length = 2) : ∃ a b, l = [a, b] := by
   match l, h with
   | [a, b], _ => exact ⟨a, b, rfl⟩
@@ -429,7 +436,7 @@ theorem jaccard_refines (hc : CountLaws α) (x y : Array α) (h : x.size = y.siz
   simp only [GenMetric.jaccard, L, Option.bind_eq_bind, Option.bind_some, Option.pure_def]
   simp only [Metrics.jaccard, jaccardOfCounts, numNonZero, numTrueTrue, some_ite]
   simp only [count_fold2 hc, Array.length_toList]
-  try (first | rfl | exact ite_some_eq _ _ _)
+  try (first | rfl | exact ite_some_eq _ _ _ | (repeat (first | rfl | apply ite_some_congr)))
 
 theorem alternative_jaccard_loop0 (x y : Array α) (h : x.size = y.size) :
     ∀ (fuel k : Nat), k ≤ x.size → x.size - k + 1 ≤ fuel → ∀ (nz ne : α),
@@ -446,7 +453,7 @@ theorem alternative_jaccard_refines (hc : CountLaws α) (x y : Array α) (h : x.
   simp only [GenMetric.alternative_jaccard, L, Option.bind_eq_bind, Option.bind_some, Option.pure_def]
   simp only [Metrics.alternativeJaccard, alternativeJaccardOfCounts, numNonZero, numTrueTrue, some_ite]
   simp only [count_fold2 hc, Array.length_toList]
-  try (first | rfl | exact ite_some_eq _ _ _)
+  try (first | rfl | exact ite_some_eq _ _ _ | (repeat (first | rfl | apply ite_some_congr)))
 
 theorem matching_loop0 (x y : Array α) (h : x.size = y.size) :
     ∀ (fuel k : Nat), k ≤ x.size → x.size - k + 1 ≤ fuel → ∀ (nn : α),
@@ -462,7 +469,7 @@ theorem matching_refines (hc : CountLaws α) (x y : Array α) (h : x.size = y.si
   simp only [GenMetric.matching, L, Option.bind_eq_bind, Option.bind_some, Option.pure_def]
   simp only [Metrics.matching, matchingOfCounts, numNotEqual, some_ite]
   simp only [count_fold2 hc, Array.length_toList]
-  try (first | rfl | exact ite_some_eq _ _ _)
+  try (first | rfl | exact ite_some_eq _ _ _ | (repeat (first | rfl | apply ite_some_congr)))
 
 theorem dice_loop0 (x y : Array α) (h : x.size = y.size) :
     ∀ (fuel k : Nat), k ≤ x.size → x.size - k + 1 ≤ fuel → ∀ (tt nn : α),
@@ -479,7 +486,7 @@ theorem dice_refines (hc : CountLaws α) (x y : Array α) (h : x.size = y.size) 
   simp only [GenMetric.dice, L, Option.bind_eq_bind, Option.bind_some, Option.pure_def]
   simp only [Metrics.dice, diceOfCounts, numTrueTrue, numNotEqual, some_ite]
   simp only [count_fold2 hc, Array.length_toList]
-  try (first | rfl | exact ite_some_eq _ _ _)
+  try (first | rfl | exact ite_some_eq _ _ _ | (repeat (first | rfl | apply ite_some_congr)))
 
 theorem kulsinski_loop0 (x y : Array α) (h : x.size = y.size) :
     ∀ (fuel k : Nat), k ≤ x.size → x.size - k + 1 ≤ fuel → ∀ (tt nn : α),
@@ -496,7 +503,7 @@ theorem kulsinski_refines (hc : CountLaws α) (x y : Array α) (h : x.size = y.s
   simp only [GenMetric.kulsinski, L, Option.bind_eq_bind, Option.bind_some, Option.pure_def]
   simp only [Metrics.kulsinski, kulsinskiOfCounts, numTrueTrue, numNotEqual, some_ite]
   simp only [count_fold2 hc, Array.length_toList]
-  try (first | rfl | exact ite_some_eq _ _ _)
+  try (first | rfl | exact ite_some_eq _ _ _ | (repeat (first | rfl | apply ite_some_congr)))
 
 theorem rogers_tanimoto_loop0 (x y : Array α) (h : x.size = y.size) :
     ∀ (fuel k : Nat), k ≤ x.size → x.size - k + 1 ≤ fuel → ∀ (nn : α),
@@ -512,7 +519,7 @@ theorem rogers_tanimoto_refines (hc : CountLaws α) (x y : Array α) (h : x.size
   simp only [GenMetric.rogers_tanimoto, L, Option.bind_eq_bind, Option.bind_some, Option.pure_def]
   simp only [Metrics.rogersTanimoto, rogersTanimotoOfCounts, numNotEqual, some_ite]
   simp only [count_fold2 hc, Array.length_toList]
-  try (first | rfl | exact ite_some_eq _ _ _)
+  try (first | rfl | exact ite_some_eq _ _ _ | (repeat (first | rfl | apply ite_some_congr)))
 
 theorem sokal_michener_loop0 (x y : Array α) (h : x.size = y.size) :
     ∀ (fuel k : Nat), k ≤ x.size → x.size - k + 1 ≤ fuel → ∀ (nn : α),
@@ -528,7 +535,7 @@ theorem sokal_michener_refines (hc : CountLaws α) (x y : Array α) (h : x.size 
   simp only [GenMetric.sokal_michener, L, Option.bind_eq_bind, Option.bind_some, Option.pure_def]
   simp only [Metrics.rogersTanimoto, rogersTanimotoOfCounts, numNotEqual, some_ite]
   simp only [count_fold2 hc, Array.length_toList]
-  try (first | rfl | exact ite_some_eq _ _ _)
+  try (first | rfl | exact ite_some_eq _ _ _ | (repeat (first | rfl | apply ite_some_congr)))
 
 theorem sokal_sneath_loop0 (x y : Array α) (h : x.size = y.size) :
     ∀ (fuel k : Nat), k ≤ x.size → x.size - k + 1 ≤ fuel → ∀ (tt nn : α),
@@ -545,7 +552,7 @@ theorem sokal_sneath_refines (hc : CountLaws α) (x y : Array α) (h : x.size = 
   simp only [GenMetric.sokal_sneath, L, Option.bind_eq_bind, Option.bind_some, Option.pure_def]
   simp only [Metrics.sokalSneath, sokalSneathOfCounts, numTrueTrue, numNotEqual, some_ite]
   simp only [count_fold2 hc, Array.length_toList]
-  try (first | rfl | exact ite_some_eq _ _ _)
+  try (first | rfl | exact ite_some_eq _ _ _ | (repeat (first | rfl | apply ite_some_congr)))
 
 theorem russellrao_loop0 (x y : Array α) (h : x.size = y.size) :
     ∀ (fuel k : Nat), k ≤ x.size → x.size - k + 1 ≤ fuel → ∀ (tt : α),
@@ -561,7 +568,7 @@ theorem russellrao_refines (hc : CountLaws α) (x y : Array α) (h : x.size = y.
   simp only [GenMetric.russellrao, L, Option.bind_eq_bind, Option.bind_some, Option.pure_def]
   simp only [Metrics.russellrao, russellraoOfCounts, numTrueTrue, countNZ, some_ite]
   simp only [count_fold2 hc, Array.length_toList]
-  try (first | rfl | exact ite_some_eq _ _ _)
+  try (first | rfl | exact ite_some_eq _ _ _ | (repeat (first | rfl | apply ite_some_congr)))
 
 theorem yule_loop0 (x y : Array α) (h : x.size = y.size) :
     ∀ (fuel k : Nat), k ≤ x.size → x.size - k + 1 ≤ fuel → ∀ (tt tf ft : α),
@@ -579,7 +586,7 @@ theorem yule_refines (hc : CountLaws α) (x y : Array α) (h : x.size = y.size) 
   simp only [GenMetric.yule, L, Option.bind_eq_bind, Option.bind_some, Option.pure_def]
   simp only [Metrics.yule, yuleOfCounts, numTrueTrue, numTrueFalse, numFalseTrue, some_ite]
   simp only [count_fold2 hc, Array.length_toList]
-  try (first | rfl | exact ite_some_eq _ _ _)
+  try (first | rfl | exact ite_some_eq _ _ _ | (repeat (first | rfl | apply ite_some_congr)))
 
 /-! ### three arrays -/
 
